@@ -364,7 +364,7 @@ def _count_steps(case):
 
 
 def jobs(tier, seed):
-    n, shards = (2000, 8) if tier == "quick" else (128000, 16)
+    n, shards = (2000, 8) if tier == "quick" else (320000, 16)
     out = [{"name": "grid", "kind": "grid"}]
     out += [{"name": f"hyp-{i}", "kind": "hyp", "seed": seed * 1000 + i, "n": n // shards} for i in range(shards)]
     of = 4 if tier == "quick" else 16
